@@ -215,16 +215,81 @@ def run_index(pid, tier, verif_seed, idx, timeout=60.0, keep_spec=False):
     return res
 
 
+def _one_run(pid, tier, verif_seed, i, timeout, want_samples):
+    r = run_index(pid, tier, verif_seed, i, timeout=timeout, keep_spec=(i in want_samples))
+    d = r.as_dict()
+    if r.status == "ok" and i not in want_samples:
+        d["head"] = None
+    return d
+
+
+def in_fresh_child(fn, timeout, what="run"):
+    """Run fn() in a forked child and return its (picklable) result, or None if the child ended without one.
+
+    One run = one process image: nothing a run leaves behind in the interpreter (caches, mutated defaults, module state of the
+    library under test) can reach another run, so a verdict never depends on which runs happened to share a worker, and a replay
+    in a fresh interpreter starts from the same state.  Histories that matter therefore have to be INSIDE a spec."""
+    import pickle
+    import select
+    rfd, wfd = os.pipe()
+    child = os.fork()
+    if child == 0:
+        code = 0
+        try:
+            os.close(rfd)
+            data = pickle.dumps(fn())
+            with os.fdopen(wfd, "wb") as f:
+                f.write(data)
+        except BaseException:
+            code = 3
+        finally:
+            os._exit(code)
+    os.close(wfd)
+    chunks, deadline = [], time.time() + timeout + 60.0
+    with os.fdopen(rfd, "rb") as f:
+        while True:
+            left = deadline - time.time()
+            if left <= 0 or not select.select([f], [], [], left)[0]:
+                try:
+                    os.kill(child, 9)
+                except OSError:
+                    pass
+                break
+            b = os.read(f.fileno(), 1 << 20)
+            if not b:
+                break
+            chunks.append(b)
+    try:
+        os.waitpid(child, 0)
+    except OSError:
+        pass
+    try:
+        return pickle.loads(b"".join(chunks))
+    except Exception:
+        return None
+
+
+def _forked_run(pid, tier, verif_seed, i, timeout, want_samples):
+    d = in_fresh_child(lambda: _one_run(pid, tier, verif_seed, i, timeout, want_samples), timeout)
+    if d is None:
+        d = dict(status="harness", cls="worker:child-died", msg="the process of run %d ended without a result" % i, idx=i,
+                 counters={}, keys=[], digest="", nevents=0, head=None, spec=None, tb="", site=None, wall=0.0)
+    return d
+
+
 def _worker_chunk(args):
     pid, tier, verif_seed, idxs, timeout, want_samples = args
-    out = []
-    for i in idxs:
-        r = run_index(pid, tier, verif_seed, i, timeout=timeout, keep_spec=(i in want_samples))
-        d = r.as_dict()
-        if r.status == "ok" and i not in want_samples:
-            d["head"] = None
-        out.append(d)
-    return out
+    fork = os.environ.get("VERIF_FORK_PER_RUN", "1") != "0"
+    if fork:
+        # import-time state only: what a fresh interpreter has after importing the library (children inherit it instead of
+        # importing again)
+        for name in ("mofun", "mofun.atoms", "mofun.mofun", "mofun.helpers", "mofun.cli.mofun_cli", "ase.io", "ase.geometry", "CifFile",
+                     "scipy.spatial", "scipy.spatial.transform", "mofsim.props.%s" % pid.lower()):
+            try:
+                importlib.import_module(name)
+            except Exception:
+                pass
+    return [(_forked_run if fork else _one_run)(pid, tier, verif_seed, i, timeout, want_samples) for i in idxs]
 
 
 # ---------------------------------------------------------------------------------------------------------------
@@ -266,10 +331,13 @@ def minimise(mod, spec, target_cls, target_site, budget_s=20.0, timeout=60.0):
                 break
             try:
                 cand = jsonable(cand)
-                r = execute_spec(mod, cand, timeout=timeout)
+                if os.environ.get("VERIF_FORK_PER_RUN", "1") != "0":
+                    v = in_fresh_child(lambda: (lambda r: (r.status, r.cls, r.site))(execute_spec(mod, cand, timeout=timeout)), timeout)
+                else:
+                    v = (lambda r: (r.status, r.cls, r.site))(execute_spec(mod, cand, timeout=timeout))
             except Exception:
                 continue
-            if r.status == "violation" and r.cls == target_cls and (r.site or "") == (target_site or ""):
+            if v is not None and v[0] == "violation" and v[1] == target_cls and (v[2] or "") == (target_site or ""):
                 spec = cand
                 steps += 1
                 improved = True
@@ -381,6 +449,8 @@ def summarise(pid, tier, verif_seed, results, stopped_early, wall, mod, extra=No
         "seeds": "VERIF_SEED=%d; run seed = blake2b(VERIF_SEED, property, tier, run index), run indices 0..%d"
                  % (verif_seed, len(results) - 1),
         "simulated_time": "not applicable (no clock in the system under test)",
+        "isolation": ("every run executes in its own forked process image (no interpreter state survives from one run to the next; histories are inside the spec)"
+                      if os.environ.get("VERIF_FORK_PER_RUN", "1") != "0" else "runs share worker processes (VERIF_FORK_PER_RUN=0)"),
         "components": getattr(mod, "COMPONENTS", {}),
         "stopped_early": stopped_early,
         "slowest_run": max(({"run_index": r["idx"], "wall_s": round(r.get("wall") or 0.0, 2)} for r in results), key=lambda d: d["wall_s"], default=None),
